@@ -16,6 +16,15 @@ part of the view mask in avo's model (avo handles the 32-bit case separately by
 `hw_zeroing` below records what was measured, but they are not compared with
 the mask.  Writes through views of the stack pointer are not executed (encoding
 only).
+
+Beyond the table rows: `reg_vars` (every exported register VARIABLE holds the
+register its name denotes), `virt_to_phys` / `virt_to_phys_default` (the view of
+the physical register a virtual register is allocated to), `virt_views`,
+`vnew_ok`, `coll_alloc_ok`, `ctor_ok` (virtual registers are only ever given width
+views their kind has — through the conversion methods and the named
+constructors) and `vnew_manufactures` (F21: the constructors that take kind and
+width as ARGUMENTS manufacture views that do not exist), and `accept…_sound` for
+every acceptor of the driver.
 -/
 import AvoVerif.Model.RegHW
 import AvoVerif.Gen.Regs
@@ -409,6 +418,32 @@ theorem virt_to_phys {r : RegRow} (hr : r ∈ Gen.regs) (hp : physical r) (v : V
   rw [lookupID_tbl hr]
   exact phys_as hr hp v.spec
 
+/-- `reg.Allocation.LookupRegisterDefault`: the allocated view, or the register itself. -/
+def allocDefault (tbl : List RegRow) (v : Virt) (pid : Nat) : Nat × Nat :=
+  match allocLookup tbl v pid with
+  | some p => (p.id, p.mask)
+  | none => (v.id, v.spec)
+
+/-- The defaulting variant never changes the width either: it is the view of the
+physical register with the virtual register's mask when that exists in
+hardware, and the virtual register itself otherwise. -/
+theorem virt_to_phys_default {r : RegRow} (hr : r ∈ Gen.regs) (hp : physical r) (v : Virt) :
+    DefaultViewOK r.kind r.idx r.id v.id v.spec (allocDefault Gen.regs v r.id) := by
+  have h := virt_to_phys hr hp v
+  unfold allocDefault
+  cases hl : allocLookup Gen.regs v r.id with
+  | none =>
+    rw [hl] at h
+    have hx : hwViewExists r.kind r.idx v.spec = false := by simpa [AsOK] using h
+    exact ⟨rfl, by simp [hx]⟩
+  | some p =>
+    rw [hl] at h
+    obtain ⟨hx, hid, hm, _⟩ := h
+    exact ⟨hm, by simp [hx, hid]⟩
+
+example : allocDefault Gen.regs ⟨5, kindGP, S8H⟩ 393472 = (newid 1 kindGP 5, S8H) := by decide +kernel
+example : ¬ DefaultViewOK 1 6 393472 327937 S8H (393472, S64) := by decide
+
 example : allocLookup Gen.regs ⟨5, kindGP, S8H⟩ 256 = some ⟨"AH", 1, 0, 2, 1, 0, 256⟩ := by decide +kernel
 example : allocLookup Gen.regs ⟨5, kindGP, S8H⟩ 393472 = none := by decide +kernel
 example : ¬ AsOK 1 0 256 S8H (some (256, S8L, 1)) := by decide
@@ -798,6 +833,8 @@ theorem acceptLookup_sound {k i id s : Nat} {o : Option (Nat × Nat × Nat)} (h 
     AsOK k i id s o := verdict_sound (by decide) h
 theorem acceptVlook_sound {k i id s : Nat} {o : Option (Nat × Nat × Nat)} (h : acceptVlook k i id s o = "ok") :
     AsOK k i id s o := verdict_sound (by decide) h
+theorem acceptVlookDefault_sound {a b c d e : Nat} {rd : Nat × Nat} (h : acceptVlookDefault a b c d e rd = "ok") :
+    DefaultViewOK a b c d e rd := verdict_sound (by decide) h
 theorem acceptLookupVirtual_sound {id : Nat} {o : Option RegRow} (h : acceptLookupVirtual id o = "ok") :
     VirtualLookupOK id o := verdict_sound (by decide) h
 theorem acceptVAs_sound {id s : Nat} {o : Option (Nat × Nat × Nat)} (h : acceptVAs id s o = "ok") :
